@@ -83,6 +83,17 @@ TRACE = Trace()
 _installed = False
 
 
+class paused:
+    """Context manager: the harness's own store traffic (e.g. writing an input array) is not recorded."""
+
+    def __enter__(self):
+        self.was = TRACE.enabled
+        TRACE.enabled = False
+
+    def __exit__(self, *a):
+        TRACE.enabled = self.was
+
+
 def _root_of(store):
     r = getattr(store, "root", None)
     if r is not None:
